@@ -535,16 +535,15 @@ def rule_initcap_sink(ctx):
     return r
 
 
-def rule_store_config(ctx):
-    r = RuleResult('MUST-store-config', 'the constructors store max_capacity, time_to_live and time_to_idle exactly as given: on every path the field of the '
-                   'constructed cache state holds the parameter (or the field of a parameter struct) of the same name, unconditionally -- policy() and the '
-                   'expiry / capacity predicates read these fields')
+def rule_store_config(ctx, WANT=('max_capacity', 'time_to_live', 'time_to_idle'), label='MUST-store-config'):
+    r = RuleResult(label, 'the constructors store %s exactly as given: on every path the field of the '
+                   'constructed cache state holds the parameter (or the field of a parameter struct) of the same name, unconditionally -- policy(), the '
+                   'expiry / capacity predicates and the weight bookkeeping read these fields' % ', '.join(WANT))
     from .symex import subterms, fmt, PathLimit
     prog = ctx.prog
     targets = [('unsync::cache::Cache', 'unsync')]
     if ctx.has_sync:
         targets.append(('sync::base_cache::Inner', 'sync'))
-    WANT = ('max_capacity', 'time_to_live', 'time_to_idle')
     n = 0
     for adt_name, kind in targets:
         adt = prog.adts.get(adt_name)
@@ -625,5 +624,22 @@ def rule_store_config(ctx):
                             r.violate(F, 'config-not-passed-verbatim', pn, '%s passes `%s` as %s to %s: the configured value is filtered / derived on its way into the cache, so the cache no '
                                       'longer holds (and policy() no longer reports) exactly what it was built with' % (F, fmt(e[2][i - 1])[:60], pn, e[1]), where=ctx.where(F, e[3]),
                                       expected='%s passed on unchanged' % pn)
-    r.require_floor(6 if ctx.has_sync else 3, 'stored configuration fields')
+    r.require_floor((2 if ctx.has_sync else 1) * len(WANT), 'stored configuration fields')
     return r
+
+
+def rule_store_weigher(ctx):
+    # the weigher the user configured is the one the cache weighs with, in every configuration (also without a capacity bound)
+    return rule_store_config(ctx, WANT=('weigher',), label='MUST-store-config(weigher)')
+
+
+def rule_store_ttl(ctx):
+    return rule_store_config(ctx, WANT=('time_to_live',), label='MUST-store-config(time_to_live)')
+
+
+def rule_store_tti(ctx):
+    return rule_store_config(ctx, WANT=('time_to_idle',), label='MUST-store-config(time_to_idle)')
+
+
+def rule_store_capacity(ctx):
+    return rule_store_config(ctx, WANT=('max_capacity',), label='MUST-store-config(max_capacity)')
